@@ -7,6 +7,8 @@ model of Model/Cell.lean (`H` = SHA-256, abstract).  `Spec.BocEncode.encodeWith 
 encoder with all freedoms (Spec/BocEncode.lean).  `none` = the library raises.
 -/
 import TonVerif.Proofs.BocParse
+import TonVerif.Proofs.SrcBocHeader
+import TonVerif.Proofs.SrcBocCell
 import TonVerif.Properties.C01
 
 namespace TonVerif.Properties.C05
@@ -170,5 +172,69 @@ example (H : Bytes → Bytes) : ∃ out, fromBoc H (encodeWith exFr exCells [0, 
 example (H : Bytes → Bytes) (k : Nat) (hk : k < 8 * (encodeWith exFr exCells [0, 1]).length) :
     fromBoc H (flipBit (encodeWith exFr exCells [0, 1]) k) = none :=
   c05_crc_single_bit H exFr exCells [0, 1] exValid rfl k hk
+
+/-! ## the header parser of the working tree (regenerated from the source on every run) -/
+
+open TonVerif.Generated.BocHeader in
+/-- SOURCE TIE for the header parser: `Generated.BocHeader.header` is regenerated on every run from the text of
+`Boc.deserialize_boc_header` (pytoniq_core/boc/deserialize.py; `bytes_to_uint` from boc/utils.py, the three magic constants
+from the module; translator harness/translate/pybytes.py).  For EVERY byte list it raises exactly when the hand model's
+header parser `deserializeBocHeader` (about which all theorems above are proved) returns `none`, and otherwise returns
+the dict with the hand model's `has_idx`, `hash_crc32`, `has_cache_bits` (as truth values), `flags`, `size_bytes`,
+`offset_bytes`, `cells_num`, `roots_num`, `absent_num`, `tot_cells_size`, `root_list`, `index` (`None` exactly when there is
+no index) and `cells_data` — including the CRC-32C comparison and the trailing-bytes check at the end.  `crc32c` is the
+model of crypto/crc.py (its own source tie: C18). -/
+theorem c05_src_header (data : Bytes) :
+    header data = (deserializeBocHeader data).map HeaderOut.ofModel :=
+  TonVerif.Proofs.SrcBocHeader.src_header_eq_model data
+
+open TonVerif.Generated.BocHeader in
+/-- consequence: the source's header parser and the hand model accept the same byte lists. -/
+theorem c05_src_header_accepts (data : Bytes) : (header data).isSome = (deserializeBocHeader data).isSome := by
+  rw [c05_src_header]; cases deserializeBocHeader data <;> rfl
+
+open TonVerif.Generated.BocHeader in
+/-- SOURCE TIE for the first part of the cell record reader: `Generated.BocHeader.cell_layout` is regenerated on every run
+from the statements of `Boc.deserialize_cell` that precede `bits = bitarray()` (descriptor bytes `d1`, `d2`, absent-cell
+marker, `popcount(level mask) + 1` stored hashes and depths, the length check).  For EVERY byte list and index width it raises
+exactly when the hand model's `deserializeCell` fails in that part, and otherwise yields the hand model's number of
+references, exotic flag, completion-tag flag, number of data bytes and data start position; and the hand model's
+`deserializeCell` IS that part followed by `cellRest` (data bits, completion tag, exotic type byte, reference indices - these
+stay tied by differential correspondence only). -/
+theorem c05_src_cell_layout (data : Bytes) (refSize : Nat) :
+    cell_layout data refSize = cellLayout data refSize ∧
+    deserializeCell data refSize = (cell_layout data refSize).bind (cellRest data refSize) := by
+  have h := TonVerif.Proofs.SrcBocCell.src_cell_layout_eq data refSize
+  exact ⟨h, by rw [h]; exact TonVerif.Proofs.SrcBocCell.deserializeCell_eq data refSize⟩
+
+open TonVerif.Generated.BocHeader in
+/-- non-vacuity of `c05_src_cell_layout`: an exotic record with stored hashes of a level-mask-1 cell (two hashes, two depths:
+68 bytes), 36 data bytes with completion tag, one reference of width 2. -/
+example : cell_layout ([0x39, 0x49] ++ List.replicate 68 0 ++ List.replicate 37 1 ++ [0, 5]) 2 =
+    some { total_refs := 1, is_exotic := true, is_augmented := true, data_size := 37, i := 70 } := by
+  decide +kernel
+
+/-- non-vacuity of `c05_src_header`: a well-formed header (generic constructor, index present, one cell, one root, three
+bytes of cell data) on which the regenerated parser and the hand model both return the expected fields. -/
+def idxBag : Bytes := [0xb5, 0xee, 0x9c, 0x72, 0x81, 1, 1, 1, 0, 3, 0, 3, 0, 2, 0xaa]
+
+def idxBagOut : Generated.BocHeader.HeaderOut :=
+  { has_idx := true, hash_crc32 := false, has_cache_bits := false, flags := 0, size_bytes := 1, offset_bytes := 1,
+    cells_num := 1, roots_num := 1, absent_num := 0, tot_cells_size := 3, root_list := [0], index := some [3],
+    cells_data := [0, 2, 0xaa] }
+
+def idxBagHeader : Header :=
+  { fl := { generic := true, hasIdx := true, hasCrc := false, hasCacheBits := false, flags := 0, sizeBytes := 1 },
+    offsetBytes := 1, cellsNum := 1, rootsNum := 1, absentNum := 0, totCellsSize := 3, rootList := [0], index := [3],
+    cellsData := [0, 2, 0xaa] }
+
+open TonVerif.Generated.BocHeader in
+example : header idxBag = some idxBagOut ∧ deserializeBocHeader idxBag = some idxBagHeader := by
+  constructor <;> decide +kernel
+
+open TonVerif.Generated.BocHeader in
+/-- and a rejected one (one byte missing): both raise. -/
+example : header idxBag.dropLast = none ∧ deserializeBocHeader idxBag.dropLast = none := by
+  constructor <;> decide +kernel
 
 end TonVerif.Properties.C05
